@@ -194,7 +194,7 @@ H(P, "c16", "c16_u8_add_saturates", ("bare",), "every u8^3 x every i32^3 delta <
 
 # ---------------------------------------------------------------- C04
 P = "C04"
-BOUNDS[P] = "every triangle (all vertex orders, both windings, flat tops/bottoms, slivers down to the lattice step) whose vertices lie on the half-pixel lattice of a 2x2-pixel grid: 5^6 coordinate tuples decided at once per case; shared edge: all 5^8 quadruples; cfg bare (quick), libm/std (thorough)"
+BOUNDS[P] = "every triangle (all vertex orders, both windings, flat tops/bottoms, slivers down to the lattice step) whose vertices lie on the half-pixel lattice of a 2x2-pixel grid: 5^6 coordinate tuples decided at once per case; sub-pixel triangles on the quarter-pixel lattice of one pixel; shared edge: all 5^8 quadruples; cfg bare (quick), libm/std (thorough)"
 OUTSIDE[P] = ["triangles larger than 2 px in the quick tier; larger than 3 px in the thorough tier (3x3 grid, split 49 ways on the first vertex)", "vertices off the half-pixel lattice (arbitrary floats): the 0.001-px tolerance band collapses to 'exactly on an edge' on the lattice", "partially off-grid triangles (negative coordinates)", "slivers thinner than the lattice step"]
 LEVEL_TEXT[P] = ("Bounded model checking of the real tri_fill/scan/ScanlineIter over every lattice triangle of a 2x2-pixel grid at once, against exact integer edge functions: "
                  "strictly-inside centres exactly one fragment, strictly-outside none, on-edge at most one; rows strictly increasing; xs.len == fragment count; two triangles sharing an edge never double-draw or leave a gap.")
@@ -202,6 +202,7 @@ for y in range(5):
     H(P, "c04", f"c04_cover_g2_y{y}", ("bare",), f"all lattice triangles of the 2x2 grid with first-vertex y = {y}/2 (5^5 tuples, area != 0)", "coverage == integer edge functions; rows increasing; in grid; xs.len == #fragments; no pixel twice", unwind=6, est=250, cap=900)
     H(P, "c04", f"c04_cover_g2_y{y}", ("std", "libm"), f"same under the floor-based rounding variants", "same", unwind=6, est=250, cap=2700, tiers=("thorough",))
 H(P, "c04", "c04_degenerate_g2", ("bare",), "all zero-area lattice triangles of the 2x2 grid", "no panic, rows increasing, in grid, no pixel twice", unwind=6, est=200, cap=900)
+H(P, "c04", "c04_cover_subpixel", ("bare",), "all triangles on the quarter-pixel lattice of a single pixel (5^6 tuples, area != 0): sub-pixel triangles and slivers", "the centre (1/2,1/2) is drawn exactly once if strictly inside, never if strictly outside; at most one row", unwind=5, est=120, cap=900)
 for y in range(5):
     H(P, "c04", f"c04_shared_edge_g2_y{y}", ("bare",), f"all pairs of lattice triangles on opposite sides of a shared edge pq, p.y = {y}/2", "no centre drawn twice in total; strictly inside either => exactly once; on the open shared edge => exactly once", unwind=6, est=1500, cap=2700, tiers=("thorough",))
 
@@ -266,7 +267,7 @@ H(P, "c06", "c07_framebuf_flags", ("bare",), "arbitrary span / flags (see C07)",
 
 # ---------------------------------------------------------------- C09
 P = "C09"
-BOUNDS[P] = "then vs compose: affine matrices with small integer entries; transpose: arbitrary float matrices; apply o compose: 3x3 affine with entries {-1,0,1}; 4x4: A affine with entries {-1,0,1}, B = translate o scale built with the constructors; integer probes; inverse: all M = P*D*T with P any axis permutation, D = diag(+-2^k), |k|<=2, T integer translation in [-3,3]^3; constructors: arbitrary finite floats <= 2^60; determinant: affine matrices with entries in {-1,0,1}"
+BOUNDS[P] = "then vs compose: affine matrices with small integer entries; transpose: arbitrary float matrices; apply o compose: 3x3 affine with entries {-1,0,1}; 4x4: A affine with entries {-1,0,1}, B = translate o scale built with the constructors; integer probes; inverse: all M = P*D*T with P any axis permutation, D = diag(+-2^k), |k|<=2, T integer translation in [-3,3]^3, and all triangular (sheared) matrices with diagonal +-2^k, integer shears in [-2,2] and integer translation; constructors: arbitrary finite floats <= 2^60; determinant: affine matrices with entries in {-1,0,1}"
 OUTSIDE[P] = ["inverse of arbitrary well-conditioned float matrices (tolerance proof over 16 free floats)", "rotate_x/y/z, orient_y/z: values of sin/cos/normalize (transcendentals have no solver semantics)", "apply() on *vectors* uses the homogeneous 1 (documented TODO in the source): translation leaks into vectors; recorded as a known finding, not asserted"]
 LEVEL_TEXT[P] = ("Bounded model checking with relational oracles (two runs of the real code must agree exactly) on integer / power-of-two families where float arithmetic is exact: "
                  "composition vs sequential application, then vs compose, Gauss-Jordan inverse under every pivoting pattern, constructors' defining effects on arbitrary floats, multiplicative determinant.")
@@ -275,6 +276,8 @@ H(P, "c09", "c09_apply_compose_4x4", ("bare",), "affine 4x4, entries in {-1,0,1,
 H(P, "c09", "c09_apply_compose_3x3", ("bare",), "affine 3x3, entries in [-3,3]; probes in [-4,4]^2", "(A o B)v == A(Bv) exactly", unwind=6, est=120)
 for perm in ("012", "021", "102", "120", "201", "210"):
     H(P, "c09", f"c09_inverse_perm_{perm}", ("bare",), f"M = P({perm}) * diag(+-2^k) * T, k in [-2,2], t in [-3,3]^3", "inverse() does not panic; M^-1 o M == I == M o M^-1 exactly", unwind=6, est=200, cap=900)
+for w in ("upper", "lower"):
+    H(P, "c09", f"c09_inverse_shear_{w}", ("bare",), f"{w}-triangular M: diagonal +-2^k (|k|<=1), integer shear entries in [-2,2], integer translation in [-2,2]^3", "inverse() does not panic; M^-1 o M == I == M o M^-1 exactly", unwind=6, est=400, cap=1200)
 H(P, "c09", "c09_translate", ("bare",), "arbitrary finite floats |.| <= 2^60", "translate(t).apply_pt(p) == p + t exactly; det == 1", unwind=6, est=150, cap=900)
 H(P, "c09", "c09_constructors", ("bare",), "arbitrary finite floats |.| <= 2^60", "translate/scale/from_basis defining effect exactly; det(translate) == 1", unwind=6, est=120)
 H(P, "c09", "c09_scale_determinant", ("bare",), "integer scale factors in [-8,8]^3", "det(scale) == x*y*z; identity", unwind=6, est=30)
@@ -292,6 +295,7 @@ H(P, "c08", "c08_perspective_rejects", ("bare",), "finite parameters with f<=0 o
 H(P, "c08", "c08_orthographic_dyadic", ("bare",), "integer lbn in [-8,8]^3, extents 2^[0,4]", "corners -> (-1,-1,-1,1)/(1,1,1,1), centre -> origin", unwind=6, est=120)
 H(P, "c08", "c08_viewport_matrix", ("bare",), "all l<=r<=4096, t<=b<=4096; finite z", "(-1,-1)->(l,t); (1,1)->(r,b); centre->centre; z passes", unwind=6, est=60)
 H(P, "c08", "c08_rect_algebra", ("bare",), "two rects with optional bounds <= 8, probe point <= 9", "contains == membership; intersect == conjunction; is_empty/width/height", est=60)
+H(P, "c08", "c08_rect_from_bounds", ("bare",), "Rect::from((H,V)) with every combination of Included/Excluded/Unbounded start and end bounds, values <= 8, probe points <= 10", "contains(x,y) == H.contains(x) && V.contains(y)", est=60)
 H(P, "c08", "c08_camera_viewport", ("bare",), "frame <= 64x64, requested bounds <= 100, forms (a..b,c..d) / (a..,..d) / vec..vec", "dims and NDC-corner images are those of bounds ∩ frame; always inside the frame; empty intersection => zero area", unwind=6, est=120)
 H(P, "c08", "c08_camera_projection", ("bare",), "dims <= 64x64, f in 2^[-2,2], integer view translation", "perspective(aspect = w/h); world_to_project == mode.then(project); orthographic passes the box", unwind=6, est=200, cap=900)
 
@@ -303,6 +307,8 @@ LEVEL_TEXT[P] = ("Bounded model checking of parse_pnm with concrete header text 
                  "short payload => Err; zero-sized and overflowing dimensions never panic; write_ppm -> read_pnm round trip on strided views.")
 for n, dom in [("c13_p6_2x1", "'P6 2 1 255\\n'"), ("c13_p6_1x2_tabs_cr", "'P6\\t1\\r\\n2\\n255 '"), ("c13_p6_comments", "P6 with comments before and between fields"), ("c13_p5_3x3", "'P5 3 3 255\\n'"), ("c13_p5_2x2_comment", "P5 with comments")]:
     H(P, "c13", n, ("bare",), dom + " ++ arbitrary payload bytes (one more than needed, up to 9) truncated at any point", "Ok <=> payload complete; dims/pixel count == header; pixels == payload bytes; else Err(UnexpectedEnd)", unwind=40, est=120, cap=900)
+for n in range(8):
+    H(P, "c13", f"c13_p6_2x1_cut{n}", ("bare",), f"'P6 2 1 255\\n' ++ the first {n} of 7 arbitrary payload bytes (concrete length: {'complete' if n >= 6 else 'truncated' + (' mid-pixel' if n % 3 else '')})", "Ok <=> complete, pixels == payload; else Err(UnexpectedEnd); no panic", unwind=40, est=120, cap=900)
 for n, dom in [("c13_p6_0x3", "'P6 0 3 255\\n'"), ("c13_p6_2x0", "'P6 2 0 255\\n'"), ("c13_p5_0x0", "'P5 0 0 255\\n'")]:
     H(P, "c13", n, ("bare",), dom + " ++ <= 4 arbitrary bytes", "Ok with the header's dims and no pixels; no panic", unwind=24, est=60)
 for n, dom in [("c13_p6_overflowing_dims", "'P6 65536 65536 255'"), ("c13_p6_huge_width", "'P6 4294967295 2 255'"), ("c13_p5_large", "'P5 40000 40000 255'"), ("c13_p6_dim_too_big_for_u32", "'P6 4294967296 1 255'")]:
@@ -314,8 +320,8 @@ H(P, "c13", "c13_roundtrip_2x2_view", ("std",), "2x2 sub-view at any offset of a
 
 # ---------------------------------------------------------------- C17
 P = "C17"
-BOUNDS[P] = "evaluators: integer control points in [-2,2]^4 (f32, Vec2, Point2), t in {1/4,1/2,3/4} (exact lattice); ends/totality: every float t and control point incl. NaN; spline segments: n = 1,2,3,4,8 segments on collinear control points for every float t; n = 2,4 on integer control points at t = j/(4n); joins: n = 1..4, integer control points in [-4,4]"
-OUTSIDE[P] = ["agreement of eval and fast_eval on arbitrary floats (tolerance proof)", "approximate(): subdivision recursion with symbolic halt predicate (Vec pushes in a recursive function)", "segment counts above 4; 3-D and colour instances", "BezierSpline::tangent scaling by the segment count"]
+BOUNDS[P] = "evaluators: integer control points in [-2,2]^4 (f32, Vec2, Point2), t in {1/4,1/2,3/4} (exact lattice); ends/totality: every float t and control point incl. NaN; spline segments: n = 1,2,3,4,8 segments on collinear control points for every float t; n = 2,4 on integer control points at t = j/(4n); joins: n = 1..4, integer control points in [-4,4]; approximate(): every subdivision tree of depth <= 2 on the curve 3t^2"
+OUTSIDE[P] = ["agreement of eval and fast_eval on arbitrary floats (tolerance proof)", "approximate(): the recursion-depth bound 10 + log2(len) (needs depth >= 12) and multi-segment splines; error criterion semantics beyond the subdivision-tree shape", "segment counts above 4; 3-D and colour instances", "BezierSpline::tangent scaling by the segment count"]
 LEVEL_TEXT[P] = ("Bounded model checking: evaluators and tangent against the integer Bernstein form on an exact lattice, end-point and NaN behaviour for all floats, "
                  "spline segment selection bit-identical to the per-segment cubic for every float parameter, join interpolation.")
 H(P, "c17", "c17_evaluators_lattice_f32", ("bare",), "integer control points [-2,2]^4, t = k/4", "eval*64 == fast_eval*64 == Bernstein integer form; tangent*16 == derivative; inside control bounds", est=120, cap=900)
@@ -328,6 +334,7 @@ for n in (2, 4):
     H(P, "c17", f"c17_segment_lattice_n{n}", ("bare",), f"{n}-segment spline, integer control points in [-2,2], t = j/{4*n}", "eval(t)*64 == integer Bernstein form of the segment containing t", unwind=16, est=200, cap=900)
 for n in (1, 2, 3, 4):
     H(P, "c17", f"c17_joins_n{n}", ("bare",), f"{n}-segment spline, integer control points in [-4,4], t = k/{n}", "eval(k/n) == control point 3k (1e-3); eval(0), eval(1) are the end points", unwind=16, est=120, cap=900)
+H(P, "c17", "c17_approximate_trees", ("bare",), "approximate() on the curve x = 3t^2 with a halt predicate that is arbitrary above depth D and true at depth D: every subdivision tree of depth <= 2 (depth 3 exhausts memory)", "terminates; first == p0, last == p_end exactly; points 3a^2 at strictly increasing dyadic a; every gap an aligned power of two (a node of the bisection tree)", unwind=12, est=120, cap=900)
 H(P, "c17", "c17_new_rejects_bad_length", ("bare",), "every length <= 12 that is not 3n+1 (n>=1)", "BezierSpline::new panics", kind="should_panic", unwind=16, est=30)
 H(P, "c17", "c17_smoothstep", ("bare",), "every float t; lattice k/16", "clamps outside [0,1]; fixed point 1/2; == 3t^2-2t^3 exactly on the lattice; in [0,1]", est=30)
 
